@@ -104,16 +104,23 @@ def readHeaderWith (fx : Bool) (bs : List Byte) : ParseRes :=
 
 def readHeader (bs : List Byte) : ParseRes := readHeaderWith true bs
 
-/-- `sf_open_virtual (SFM_READ)` on `bs` -/
-def parseWith (fx : Bool) (bs : List Byte) : ParseRes :=
-  if bs.length < 12 then .err else                    -- guess_file_type: SFE_BAD_FILE_READ
-  match guess bs with
+/-- `sf_open_virtual (SFM_READ)` on `bs`.  `pad = true` (the code since the repair of KF-PVF-TINY-FILE): the type detection
+    probes what a file shorter than 12 bytes has, zero-padded, and only an empty file is refused outright; `pad = false`:
+    every file shorter than the 12-byte probe was refused with SFE_BAD_FILE_READ before a marker was looked at. -/
+def parseWithP (pad fx : Bool) (bs : List Byte) : ParseRes :=
+  if bs.length < 12 ∧ (pad = false ∨ bs.length = 0) then .err else   -- guess_file_type: SFE_BAD_FILE_READ
+  match guessProbe bs with
   | some (.fmt 0x0E0000) => readHeaderWith fx bs
   | _ => .unmodelled
+
+def parseWith (fx : Bool) (bs : List Byte) : ParseRes := parseWithP true fx bs
 
 def parse (bs : List Byte) : ParseRes := parseWith true bs
 
 /-- the reader before the repair of KF-PVF-SHORT-HEADER -/
 def parseOld (bs : List Byte) : ParseRes := parseWith false bs
+
+/-- the reader before the repair of KF-PVF-TINY-FILE: a 12-byte probe or nothing -/
+def parseProbe12 (bs : List Byte) : ParseRes := parseWithP false true bs
 
 end Sf.Pvf
